@@ -4,3 +4,5 @@ open Emboss.Text
 #print axioms C06_decode_no_wrap
 #print axioms C06_decode_rejects
 #print axioms C06_decode_accepts
+#print axioms C06_tokens_roundtrip
+#print axioms C06_single_line_comments_counterexample
